@@ -52,7 +52,14 @@ pub fn race_job(case: &Case, run: &RunCfg, entries: Vec<Entry>, gran: Granularit
                     .collect();
                 hs.into_iter().map(|h| h.join().map_err(|p| crate::explorer::payload_to_string(&p))).collect()
             });
-            let trace = crate::case::take_trace();
+            let mut trace = crate::case::take_trace();
+            // which caller won is part of what distinguishes executions; a run is non-trivial when
+            // the winner is not the first caller (the race was actually decided by the schedule)
+            let winner = results.iter().position(|r| matches!(r, Ok(Ok(())))).unwrap_or(usize::MAX);
+            trace.digest ^= (winner as u64 + 1).wrapping_mul(0x9e3779b97f4a7c15);
+            if winner != 0 {
+                trace.conflicts += 1;
+            }
             let obs = finish(scheduler, Ok(Ok(())));
             ExecResult { obs: Some(obs), trace, extra: json!(results.iter().map(|r| format!("{r:?}")).collect::<Vec<_>>()) }
         })
